@@ -132,13 +132,26 @@ def check_projection_rhs(ctx, lib, stop):
         for term in br.cond(bb):
             if term[0] == "bin" and term[1] in ("Lt", "Le", "Gt", "Ge"):
                 lhs, rhs = term[2], term[3]
-                is_lbp_peek = lhs[0] == "call" and lhs[1] == "lexer::Token::lbp"
-                is_stop = rhs[0] == "const" and stop is not None and rhs[1] == stop
-                ctx.check(term[1] == "Lt" and is_lbp_peek and is_stop, rule, "threshold-test",
-                          f"threshold test is lbp(peek) < PROJECTION_STOP (found {term[1]}({fmt_terms([lhs])}, {fmt_terms([rhs])}))", b.span)
+
+                def is_lbp_peek_(x):
+                    return x[0] == "call" and x[1] == "lexer::Token::lbp"
+
+                def is_stop_(x):
+                    return x[0] == "const" and stop is not None and x[1] == stop
+                # the same strict test in any of its four spellings: lbp < STOP, !(lbp >= STOP), STOP > lbp, !(STOP <= lbp)
                 tt, ft = be
-                treg = region(b, tt)
-                freg = region(b, ft)
+                below = above = None
+                if is_lbp_peek_(lhs) and is_stop_(rhs) and term[1] in ("Lt", "Ge"):
+                    below, above = (tt, ft) if term[1] == "Lt" else (ft, tt)
+                elif is_stop_(lhs) and is_lbp_peek_(rhs) and term[1] in ("Gt", "Le"):
+                    below, above = (tt, ft) if term[1] == "Gt" else (ft, tt)
+                ctx.check(below is not None, rule, "threshold-test",
+                          f"threshold test is lbp(peek) < PROJECTION_STOP (found {term[1]}({fmt_terms([lhs])}, {fmt_terms([rhs])}))", b.span)
+                if below is None:
+                    found = True
+                    continue
+                treg = region(b, below)
+                freg = region(b, above)
                 t_ok = [s for _, _, s in region_aggs(b, treg, AST)]
                 t_id = any(s["rv"]["variant"] == "Identity" for s in t_ok) and not any(
                     t["callee"].startswith(P) for _, t in region_calls(b, treg))
